@@ -1,1 +1,152 @@
-//! placeholder, filled in below
+//! K-str: `collections::String` -- UTF-8 validity after every operation and agreement with the byte-level model,
+//! BOUNDED: strings of at most 3 characters drawn from {1,2,3-byte chars}, every byte index as argument.
+use super::util::*;
+use crate::collections::{String, Vec};
+use crate::*;
+use core::alloc::Layout;
+use core::ptr::NonNull;
+
+fn no_slow<const MIN_ALIGN: usize>(_b: &Bump<MIN_ALIGN>, _l: Layout) -> Option<NonNull<u8>> { kani::assume(false); None }
+
+const CHARS: [char; 3] = ['a', 'é', '€'];      // 1, 2 and 3 bytes
+fn any_char() -> char { let i: usize = kani::any(); kani::assume(i < 3); CHARS[i] }
+fn valid(s: &String) -> bool { core::str::from_utf8(s.as_bytes()).is_ok() }
+/// string of 1..=2 symbolic characters
+fn mk<'a>(b: &'a Bump) -> (String<'a>, [char; 2], usize) {
+    let c = [any_char(), any_char()];
+    let n: usize = kani::any(); kani::assume(n >= 1 && n <= 2);
+    let mut s = String::with_capacity_in(8, b);
+    s.push(c[0]); if n == 2 { s.push(c[1]); }
+    (s, c, n)
+}
+fn blen(c: &[char; 2], n: usize) -> usize { c[0].len_utf8() + if n == 2 { c[1].len_utf8() } else { 0 } }
+fn is_boundary(c: &[char; 2], n: usize, i: usize) -> bool { i == 0 || i == c[0].len_utf8() || (n == 2 && i == blen(c, n)) || (n == 1 && i == blen(c, n)) }
+
+#[kani::proof]
+#[kani::unwind(12)]
+#[kani::stub(Bump::alloc_layout_slow, no_slow)]
+fn k_str_push_pop_insert_remove() {
+    let b = mk_bump::<1>(448);
+    let (mut s, c, n) = mk(&b);
+    assert!(valid(&s) && s.len() == blen(&c, n));
+    let x = any_char();
+    let i: usize = kani::any(); kani::assume(i <= s.len() && is_boundary(&c, n, i));
+    s.insert(i, x);
+    assert!(valid(&s) && s.len() == blen(&c, n) + x.len_utf8(), "C14 insert keeps UTF-8");
+    let r = s.remove(i);
+    assert!(r == x && valid(&s) && s.len() == blen(&c, n));
+    let p = s.pop();
+    assert!(p == Some(c[n - 1]) && valid(&s));
+    s.push_str("é€");
+    assert!(valid(&s));
+    kani::cover!(n == 2 && i > 0);
+    core::mem::forget(s); core::mem::forget(b);
+}
+#[kani::proof]
+#[kani::unwind(12)]
+#[kani::should_panic]
+#[kani::stub(Bump::alloc_layout_slow, no_slow)]
+fn k_str_insert_non_boundary() {
+    let b = mk_bump::<1>(448);
+    let (mut s, c, n) = mk(&b);
+    let i: usize = kani::any(); kani::assume(i > s.len() || !is_boundary(&c, n, i));
+    s.insert(i, 'x');
+    core::mem::forget(s); core::mem::forget(b);
+}
+
+#[kani::proof]
+#[kani::unwind(12)]
+#[kani::stub(Bump::alloc_layout_slow, no_slow)]
+fn k_str_truncate_split_drain_replace() {
+    let b = mk_bump::<1>(448);
+    let (mut s, c, n) = mk(&b);
+    let total = blen(&c, n);
+    let i: usize = kani::any(); kani::assume(i <= total && is_boundary(&c, n, i));
+    let which: u8 = kani::any(); kani::assume(which < 4);
+    if which == 0 {
+        s.truncate(i); assert!(valid(&s) && s.len() == i);
+    } else if which == 1 {
+        let t = s.split_off(i); assert!(valid(&s) && valid(&t) && s.len() == i && t.len() == total - i);
+        core::mem::forget(t);
+    } else if which == 2 {
+        { let _d = s.drain(..i); }
+        assert!(valid(&s) && s.len() == total - i);
+    } else {
+        // inclusive end: `..=j` is valid exactly when j+1 is a boundary
+        if i > 0 { s.replace_range(..=i - 1, "€"); assert!(valid(&s) && s.len() == total - i + 3, "C14 replace_range(..=j) with j+1 on a boundary is accepted"); }
+        else { s.replace_range(..i, "é"); assert!(valid(&s) && s.len() == total + 2); }
+    }
+    kani::cover!(which == 3 && i > 1);
+    core::mem::forget(s); core::mem::forget(b);
+}
+#[kani::proof]
+#[kani::unwind(12)]
+#[kani::should_panic]
+#[kani::stub(Bump::alloc_layout_slow, no_slow)]
+fn k_str_replace_range_inclusive_non_boundary() {
+    let b = mk_bump::<1>(448);
+    let (mut s, c, n) = mk(&b);
+    let j: usize = kani::any(); kani::assume(j < s.len() && !is_boundary(&c, n, j + 1));
+    s.replace_range(..=j, "x");     // std panics: the end of the range splits a character
+    core::mem::forget(s); core::mem::forget(b);
+}
+
+#[kani::proof]
+#[kani::unwind(12)]
+#[kani::stub(Bump::alloc_layout_slow, no_slow)]
+fn k_str_retain() {
+    let b = mk_bump::<1>(448);
+    let (mut s, c, n) = mk(&b);
+    let drop_first: bool = kani::any();
+    let mut calls = 0;
+    s.retain(|ch| { calls += 1; !(drop_first && calls == 1) && ch != '€' });
+    assert!(valid(&s) && calls == n);
+    let mut exp = 0; let mut k = 0;
+    while k < 2 { if k < n && !(drop_first && k == 0) && c[k] != '€' { exp += c[k].len_utf8(); } k += 1; }
+    assert!(s.len() == exp);
+    kani::cover!(n == 2 && exp == 1);
+    core::mem::forget(s); core::mem::forget(b);
+}
+
+/// decoders: every byte string of length <= 3 -- the result is valid UTF-8, equals the input when the input is valid, and
+/// from_utf8 accepts exactly what core::str::from_utf8 accepts
+#[kani::proof]
+#[kani::unwind(12)]
+#[kani::stub(Bump::alloc_layout_slow, no_slow)]
+fn k_str_from_utf8_lossy() {
+    let b = mk_bump::<1>(448);
+    let bytes: [u8; 3] = kani::any();
+    let n: usize = kani::any(); kani::assume(n <= 3);
+    let input = &bytes[..n];
+    let std_ok = core::str::from_utf8(input).is_ok();
+    let s = String::from_utf8_lossy_in(input, &b);
+    assert!(valid(&s), "C14 lossy decoding always yields valid UTF-8");
+    if std_ok { assert!(s.as_bytes() == input, "C14 valid input is kept verbatim"); }
+    else { assert!(s.len() >= 3, "C14 invalid input gets at least one U+FFFD"); }
+    let mut v: Vec<u8> = Vec::with_capacity_in(4, &b);
+    let mut k = 0; while k < 3 { if k < n { v.push(bytes[k]); } k += 1; }
+    let r = String::from_utf8(v);
+    assert!(r.is_ok() == std_ok, "C14 from_utf8 accepts exactly what std accepts");
+    kani::cover!(!std_ok && n == 3 && bytes[0] == 0xED);
+    kani::cover!(std_ok && n == 3 && bytes[0] >= 0xE0);
+    core::mem::forget(r); core::mem::forget(s); core::mem::forget(b);
+}
+
+#[kani::proof]
+#[kani::unwind(12)]
+#[kani::stub(Bump::alloc_layout_slow, no_slow)]
+fn k_str_from_utf16() {
+    let b = mk_bump::<1>(448);
+    let u: [u16; 2] = kani::any();
+    let n: usize = kani::any(); kani::assume(n <= 2);
+    let r = String::from_utf16_in(&u[..n], &b);
+    // reference: a lone or misordered surrogate is an error
+    let hi = |x: u16| x >= 0xD800 && x <= 0xDBFF;
+    let lo = |x: u16| x >= 0xDC00 && x <= 0xDFFF;
+    let std_ok = match n { 0 => true, 1 => !hi(u[0]) && !lo(u[0]), _ => (hi(u[0]) && lo(u[1])) || (!hi(u[0]) && !lo(u[0]) && !hi(u[1]) && !lo(u[1])) };
+    assert!(r.is_ok() == std_ok, "C14 from_utf16 accepts exactly well-formed UTF-16");
+    if let Ok(s) = &r { assert!(valid(s)); }
+    kani::cover!(std_ok && n == 2 && hi(u[0]));
+    core::mem::forget(r); core::mem::forget(b);
+}
+
